@@ -217,7 +217,7 @@ def gen_alias(quick, seed):
         'a = [1, 2]\nadd_key(snap, a)\na[0] = 5\nadd_key(snap2, a)\nprobe(a)',
         'a = {"x": 1}\nb = a\nadd_key(s1, b)\nb["y"] = [a]\nprobe(len(a))',
         'a = [1]\nb = [a, a]\na[0] = 2\nprobe(b)\nc = b[0]\nc[0] = 3\nprobe(a, b)',
-        'm = {"l": [1, 2, 3]}\ns = m["l"][1:]\ns[0] = 0\nprobe(m, s)',
+        'm = {"l": [1, 2, 3]}\nt = m["l"]\ns = t[1:]\ns[0] = 0\nprobe(m, s)',
         'a = [1]\nb = a\na = [2]\nprobe(a, b)',
         'a = {"p": {"q": 1}}\nb = a["p"]\na["p"]["q"] = 2\nprobe(b)\nb["r"] = 3\nprobe(a)',
         # every evaluation of a literal is a fresh container (also the empty ones, also the same literal evaluated again)
@@ -248,6 +248,60 @@ def gen_alias(quick, seed):
                 lines.append("probe(a, b, c)")
         lines.append("probe(a, b, c)")
         out.append(ps("alias:r%d" % k, "\n".join(lines), tag="random aliasing / mutation / snapshots"))
+    return out
+
+
+# ------------------------------------------------------------------------------------------------
+# error propagation: a failing sub-expression in every expression and statement position
+
+ERR_ATOMS = ["(pv(3) + nil)", "a[pv(5)]", "m[pv(1)]", "(-pv(\"s\"))", "nosuch[pv(0)]", "a[0:1:pv(0)]"]
+ERR_EXPR_POS = [
+    "-@E@", "!@E@", "(@E@)", "[pv(1), @E@, pv(2)]", '{"a": pv(1), "b": @E@, "c": pv(2)}', "a[@E@]", "m[@E@]", "n[0][@E@]", "n[@E@][0]",
+    '@E@ in "s"', '"s" in @E@', "@E@ in a", "pv(1) in @E@", "a[@E@:1]", "a[0:@E@]", "a[0:2:@E@]", "a[pv(0):@E@:pv(1)]", "@E@[0:1]", "@E@[0]",
+    "@E@ + pv(1)", "pv(1) + @E@", "pv(1) * @E@ - pv(2)", "pv(true) && @E@", "pv(false) && @E@", "pv(true) || @E@", "pv(false) || @E@",
+    "@E@ && pv(true)", "@E@ || pv(true)", "@E@ == pv(1)", "pv(1) < @E@", "@E@ != @E@", "len(@E@)", "pv(@E@)", "[[@E@]]", '{"k": [@E@]}',
+    "a[0] + a[@E@]", "-(-@E@)", "!(pv(1) == @E@)",
+]
+ERR_STMT_POS = [
+    "for i = @E@; i < 2; i = i + 1 { probe(i) }", "for i = 0; @E@; i = i + 1 { probe(i) }", "for i = 0; i < 2; i = @E@ { probe(i) }",
+    "for i = 0; i < 2; i = i + 1 { probe(i)\nx = @E@\nprobe(i) }", "for v in @E@ { probe(v) }", "for v in [1, 2] { probe(v)\nx = @E@ }",
+    "for v in a { for w in [@E@] { probe(w) } }", "if @E@ { probe(1) } else { probe(2) }",
+    "if false { probe(1) } elif @E@ { probe(2) } else { probe(3) }", "if true { probe(1) } elif @E@ { probe(2) }",
+    "if false { } elif false { } elif @E@ { probe(2) } else { probe(3) }", "if true { x = @E@ } else { probe(3) }",
+    "x = @E@", "x = 1\nx += @E@", "x = 1\nx -= @E@", "a[@E@] = 5", "a[0] = @E@", "a[@E@] += 1", "a[0] += @E@", "a[0] /= @E@", 'm["k"][@E@] = 1',
+    'm[@E@] = 1', 'm["k"][0] = @E@', "n[@E@][0] = 1", "n[0][@E@] *= 2", "add_key(k1, @E@)", "probe(pv(1), @E@, pv(2))", "@E@",
+    "x = y = @E@" if False else "x = [@E@]", "if !@E@ { probe(1) }", "for ; !(@E@); { probe(1)\nbreak }",
+]
+
+
+def gen_errprop(quick, seed, which="both"):
+    """A failing sub-expression in every position: the effects before it happen (in order), nothing after it does, the error
+    carries the position of the failing construct."""
+    rng = random.Random(seed)
+    out = []
+    pre = 'probe(0)\na = [1, 2, 3]\nm = {"k": [1, 2]}\nn = [[1, 2], [3]]\n'
+    atoms = ERR_ATOMS
+    n = 0
+    if which in ("both", "expr"):
+        for pos in ERR_EXPR_POS:
+            for e in atoms:
+                n += 1
+                body = "probe(%s)" % pos.replace("@E@", e)
+                out.append(ps("errx:%d" % n, pre + body + "\nprobe(9)", tag="failing sub-expression in every expression position"))
+                if not quick or rng.random() < 0.3:
+                    out.append(ps("errx:%dv" % n, pre + "x = " + pos.replace("@E@", e) + "\nprobe(x)\nprobe(9)",
+                                  tag="failing sub-expression in every expression position"))
+    if which in ("both", "stmt"):
+        for pos in ERR_STMT_POS:
+            for e in atoms:
+                n += 1
+                out.append(ps("errs:%d" % n, pre + pos.replace("@E@", e) + "\nprobe(9)", tag="failing sub-expression in every statement position"))
+        # the same through use(): the callee fails, the caller's chain gets the call site
+        for pos in ERR_STMT_POS[:: (4 if quick else 1)]:
+            e = rng.choice(atoms)
+            n += 1
+            out.append(ps("erru:%d" % n, "probe(0)\nuse(\"b.p\")\nprobe(9)", extra={"b.p": pre + pos.replace("@E@", e) + "\nprobe(8)"},
+                          tag="failing sub-expression in a used script"))
     return out
 
 
@@ -324,6 +378,19 @@ probe(i, j)"""
         "i = 5\nfor i = 0; i < 2; i = i + 1 { }\nprobe(i)",
         "for i = 0; i < 2; i = i + 1 { k = i }\nfor j = 0; j < 1; j = j + 1 { probe(k, i) }",
         "_ = 5\nprobe(_, message)",
+        # loop clauses run in the loop's scope, never in a body scope: names first assigned in the body are invisible to the
+        # condition / post clause and to the next iteration; names first assigned by a clause are visible to every iteration
+        "for i = 0; i < 3; i = i + step { step = 1\nprobe(i) }\nprobe(9)",
+        "for i = 0; i == 0 || more; i = i + 1 { more = false\nprobe(i) }\nprobe(9)",
+        "for i = 0; i < 2; k = i { if i == 1 { probe(k) }\ni = i + 1 }\nprobe(i, k)",
+        "k = 5\nfor i = 0; i < 2; i = i + 1 { probe(k)\nk = 7 }\nprobe(k)",
+        "for i = 0; i < 2; i = i + 1 { probe(t)\nt = i }\nprobe(9)",
+        "for i = 0; t < 2 && i < 4; i = i + 1 { t = i + 5\nprobe(i) }\nprobe(9)",
+        "for i = 0; i < 2; i = i + 1 { if i == 0 { s = 1 } else { probe(s) } }\nprobe(9)",
+        "n = 0\nfor ; n < 2; n = n + 1 { for v in [1] { q = v }\nprobe(q, v) }\nprobe(9)",
+        "for i = 0; i < 2; probe(b, i) { b = i\ni = i + 1 }\nprobe(9)",
+        "for c = 0; c < 2; c = c + 1 { if c == 1 { break }\nd = c }\nprobe(c, d)",
+        "for v in [1, 2, 3] { if v == 2 { continue }\nprobe(r)\nr = v }\nprobe(9)",
     ]
     for i, t in enumerate(scope):
         out.append(ps("scope:%d" % i, t, pt=STD_PT, tag="scoping"))
@@ -714,6 +781,14 @@ def gen_builtins(quick, seed):
             n += 1
             out.append(ps("bi:%d" % n, call + "\nprobe(message, _)", pt={"meas": "m", "tags": {"tg": "tv"},
                           "fields": {"fi": 7, "fs": " sv ", "message": msg, "a.b": "dotted"}}, tag="key spellings and the _ alias"))
+            # ... with a script variable named `message` (or one spelled through the alias) shadowing the point's key
+            for shadow in ['message = "  VAR%20a "', '_ = "  VAR%20a "', 'message = 5']:
+                if quick and rng.random() < 0.4:
+                    continue
+                n += 1
+                out.append(ps("bi:%d" % n, shadow + "\n" + call + "\nprobe(message, _, get_key(message), get_key(_))",
+                              pt={"meas": "m", "tags": {"tg": "tv"}, "fields": {"fi": 7, "fs": " sv ", "message": msg, "a.b": "dotted"}},
+                              tag="the _ alias with a shadowing variable"))
     # sequences: the return register is not stale between calls; bystanders untouched
     seqs = ["x = len(fs)\ny = get_key(nosuch)\nprobe(x, y)", "probe(len(fs), get_key(fi), len(nosuch))", "x = get_key(fi)\nadd_key(q, 1)\ny = x\nprobe(x, y)",
             "x = load_json(\"1\")\ntrim(fs)\nprobe(x)", "cast(fi, \"str\")\nx = get_key(fi)\nprobe(x + \"!\")", "drop_key(fi)\nprobe(fi, get_key(fi))",
@@ -838,9 +913,12 @@ def gen_extract(quick, seed):
 # ------------------------------------------------------------------------------------------------
 # C18: the shared language on the v2 interpreter
 
-V2_CALLS = {"probe", "one", "two", "void"}
+V2_CALLS = {"probe", "one", "two", "void", "pv"}
 _CALL_RE = __import__("re").compile(r"([A-Za-z_][A-Za-z0-9_]*)\s*\(")
 _KW = {"if", "elif", "for", "in"}
+
+
+_SAMPLED = ("op:", "tree:", "ord:", "un:", "ctl:r", "alias:r", "slice", "sl:", "idx", "ix:", "if:", "errx", "errs")
 
 
 def v2ify(progsets, keep=1.0, seed=1):
@@ -853,7 +931,7 @@ def v2ify(progsets, keep=1.0, seed=1):
         calls = {c for c in _CALL_RE.findall(text) if c not in _KW}
         if len(p["scripts"]) != 1 or not calls <= V2_CALLS:
             continue
-        if rng.random() > keep:
+        if p["id"].startswith(_SAMPLED) and rng.random() > keep:      # only the big enumerated / random families are sampled
             continue
         q = dict(p)
         q["id"] = "v2:" + p["id"]
@@ -865,6 +943,15 @@ def v2ify(progsets, keep=1.0, seed=1):
 
 
 def gen_v2shared(quick, seed):
-    src = ([p for p in gen_ops(quick, seed) if p["id"].endswith((":ll", ":vv")) or p["id"].startswith(("un:", "tree:"))]
+    src = ([p for p in gen_ops(quick, seed) if p["id"].endswith((":ll", ":vv")) or p["id"].startswith(("un:", "tree:", "ord:"))
+            or any(o in p["id"] for o in ASSIGNOPS)]
            + gen_slices(quick, seed) + gen_index(quick, seed) + gen_control(quick, seed) + gen_alias(quick, seed))
-    return v2ify(src, keep=0.35 if quick else 1.0, seed=seed)
+    return v2ify(src, keep=0.35 if quick else 1.0, seed=seed) + v2ify(gen_errprop(quick, seed), keep=0.6 if quick else 1.0, seed=seed)
+
+
+def gen_errexpr(quick, seed):
+    return gen_errprop(quick, seed, "expr")
+
+
+def gen_errstmt(quick, seed):
+    return gen_errprop(quick, seed, "stmt")
